@@ -70,8 +70,12 @@ def run(ctx, idx):
     rets = [v for _, v, _ in r.returns if isinstance(v, Arr)]
     ok = bool(good) and all(any(t.alias & v.alias for _, t, _ in good) for v in rets)
     keeps_file_mask = all(isinstance(v, Arr) and v.M is not None for _, _, v in good)
-    ctx.ob("C18.d", "%s.execute::missing-value-mask" % d.key, d.module.rel, good[0][0] if good else fi.node.lineno, ok,
-           "mask = (data == %s) | file mask, stored on the returned array" % miss[0] if ok else "the MissingValue mask is not stored on the returned array")
+    ops = sorted({v.cmp[1] for _, _, v in good})
+    eq = bool(good) and ops == ["Eq"]
+    ctx.ob("C18.d", "%s.execute::missing-value-mask" % d.key, d.module.rel, good[0][0] if good else fi.node.lineno, ok and eq,
+           "mask = (data == %s) | file mask, stored on the returned array" % miss[0] if ok and eq else (
+               "cells are marked missing by a `%s` comparison with `%s`, not by equality: valid cells merely close to the missing value are reported missing" % ("/".join(ops), miss[0]) if ok else
+               "the MissingValue mask is not stored on the returned array"))
     # ---- d (write)
     d, r = wr
     fi = d.execute
